@@ -1099,6 +1099,26 @@ def _s_filter_level(args):
                             "nowhere else", "src": s2, "error": [n, l], "expected_suppressed": want,
                             "filter_answer": got})
               return found
+        # (4) the same program analysed with two error classes disabled for the whole file (the `disable` option): a
+        # class disabled globally is suppressed from line 0 on, a stand-alone enable/disable of ONE class changes that
+        # class only
+        if nm != "*":
+          gl = rng.sample(names, 2)
+          if rng.random() < 0.6 and nm not in gl:
+            gl[0] = nm
+          d2, _ = build_real(mods, s2, gl, cap)
+          if d2 == "ValueError":
+            continue
+          dirs_g = [(0, True, {g}) for g in gl] + dirs
+          for n in names:
+            for l in range(1, n2 + 2):
+              got = real_query(errors, d2, True, None, n, [l])
+              want = spec_standalone(None, dirs_g, n, l)
+              if got[0] in "KS" and (got[0] == "S") != want:
+                found.append({"oracle": "with error classes disabled for the whole file (option disable=%s) a stand-alone "
+                              "directive changes only the class it names" % ",".join(gl), "src": s2, "options_disable": gl,
+                              "error": [n, l], "expected_suppressed": want, "filter_answer": got})
+                return found
   return found
 
 
